@@ -350,3 +350,24 @@ m("CTL-C15-condvar-clock-once", "C15", "", "shuttle-std/src/sync/condvar.rs",
   "        let epoch = state.next_epoch;\n        for (tid, status) in state.waiters.iter_mut() {\n            assert_ne!(*tid, me);\n\n            let clock = current::clock();",
   "        let epoch = state.next_epoch;\n        let now = current::clock();\n        for (tid, status) in state.waiters.iter_mut() {\n            assert_ne!(*tid, me);\n\n            let clock = now.clone();",
   "notifier clock read once before the loop", silent=True)
+MPSC = "shuttle-std/src/sync/mpsc.rs"
+m("CTL-C06-chain-skipped-when-receiver-woken", "C06", "", MPSC,
+  "        }\n        // Check and unblock the next the waiting sender, if eligible\n        if let Some(&tid) = state.waiting_senders.first() {",
+  "        } else if let Some(&tid) = state.waiting_senders.first() {",
+  "half A of seeded C06-b alone: recv's unconditional wake still releases the next sender", silent=True)
+m("CTL-C06-recv-wake-only-if-was-full", "C06", "", MPSC,
+  "            if bound > 0 || !state.waiting_receivers.is_empty() {\n                ExecutionState::with(|s| s.get_mut(tid).unblock());",
+  "            let was_full = bound > 0 && state.messages.len() + 1 == bound;\n            if was_full || !state.waiting_receivers.is_empty() {\n                ExecutionState::with(|s| s.get_mut(tid).unblock());",
+  "half B of seeded C06-b alone: the chain wake after a push still releases the next sender", silent=True)
+m("CTL-C14-struct-tls-field-reset-in-init", "C14", "", EX,
+  "        CURRENT_SCHEDULE.with(|cs| *cs.current_schedule.borrow_mut() = schedule)",
+  "        CURRENT_SCHEDULE.with(|cs| {\n            let mut cur = cs.current_schedule.borrow_mut();\n            *cur = schedule;\n        })",
+  "init overwrites the schedule through a named borrow", silent=True)
+m("CTL-C18-grant-loop-let-else", "C18", "", "shuttle-engine/src/future/batch_semaphore.rs",
+  "            } else {\n                return;\n            }\n        }\n    }\n}\n\n/// Counting semaphore",
+  "            } else {\n                break;\n            }\n        }\n    }\n}\n\n/// Counting semaphore",
+  "grant loop leaves with break instead of return", silent=True)
+m("CTL-C12-persist-match", "C12", "", EX,
+  "        if let StepError::StepBoundExceeded = self {\n            if let MaxSteps::ContinueAfter(_) = config.max_steps {\n                return;\n            }\n        }",
+  "        match (self, &config.max_steps) {\n            (StepError::StepBoundExceeded, MaxSteps::ContinueAfter(_)) => return,\n            _ => {}\n        }",
+  "the silent ContinueAfter exit written as a tuple match", silent=True)
